@@ -18,12 +18,17 @@ import (
 	"math/rand"
 	"os"
 	"reflect"
+	"sync"
 
 	"github.com/MinterTeam/minter-go-node/coreV2/check"
+	"github.com/MinterTeam/minter-go-node/coreV2/code"
+	"github.com/MinterTeam/minter-go-node/coreV2/events"
+	"github.com/MinterTeam/minter-go-node/coreV2/state"
 	"github.com/MinterTeam/minter-go-node/coreV2/transaction"
 	"github.com/MinterTeam/minter-go-node/coreV2/types"
 	"github.com/MinterTeam/minter-go-node/crypto"
 	"github.com/MinterTeam/minter-go-node/rlp"
+	db "github.com/tendermint/tm-db"
 )
 
 var c23Exec = transaction.NewExecutorV3(transaction.GetDataV3)
@@ -135,13 +140,47 @@ type c23Run struct {
 	idx    int
 	r      *rand.Rand
 	nviol  int
+	perSig map[string]int
 	corpus *c23Corpus
+	st     *state.State // in-memory state holding the multisig accounts of this case
+}
+
+// admit asks the real executor whether a multisig transaction passes the signature phase: the harness account
+// has a nonce that never matches, so an admitted transaction ends with WrongNonce and nothing is executed.
+func (c *c23Run) admit(raw []byte) (admitted bool, rc uint32, panicked string) {
+	defer func() {
+		if r := recover(); r != nil {
+			panicked = firstLine(fmt.Sprint(r))
+		}
+	}()
+	resp := c23Exec.RunTx(c.st, raw, big.NewInt(0), 20000000, &sync.Map{}, 0, false)
+	switch resp.Code {
+	case code.WrongNonce:
+		return true, resp.Code, ""
+	}
+	return false, resp.Code, ""
+}
+
+func (c *c23Run) state() *state.State {
+	if c.st == nil {
+		st, err := state.NewStateV3(0, db.NewMemDB(), &events.MockEvents{}, 1, 1, 0)
+		if err != nil {
+			panic("c23: cannot make state: " + err.Error())
+		}
+		c.st = st
+	}
+	return c.st
 }
 
 func (c *c23Run) viol(rule, site, detail string, base *c23Base, class string, in []byte, v C23Verdict) {
 	c.nviol++
-	if c.nviol > 6 {
-		c.ctx.Res.Count("violations_not_listed", 1)
+	if c.perSig == nil {
+		c.perSig = map[string]int{}
+	}
+	c.perSig[rule+"/"+site]++
+	if c.perSig[rule+"/"+site] > 2 || len(c.perSig) > 12 {
+		// at most two witnesses per signature and case
+		c.ctx.Res.Count("violations_not_listed/"+rule, 1)
 		return
 	}
 	w := map[string]interface{}{"rule": rule, "site": site, "detail": detail, "mutator": class, "input": hex.EncodeToString(in), "verdict": v, "seed": c.ctx.Seed, "idx": c.idx,
@@ -321,6 +360,25 @@ func (c *c23Run) newTxBase(t transaction.TxType, multi bool) *c23Base {
 			ms.Threshold += ms.Weights[i]
 		}
 		spec.Multisig, spec.Signers = ms, ms.Owners[:k]
+		// the executor must get as far as the signature phase: own chain, base coin pays, service data within its limit
+		spec.ChainID, spec.GasCoin = types.CurrentChainID, 0
+		if len(spec.ServiceData) > 128 {
+			spec.ServiceData = spec.ServiceData[:128]
+		}
+		switch d := spec.Data.(type) {
+		case *transaction.SellAllCoinData:
+			d.CoinToSell = 0
+		case *transaction.SellAllSwapPoolDataV260:
+			if len(d.Coins) > 0 {
+				d.Coins[0] = 0
+			}
+		}
+		var owners []types.Address
+		for _, o := range ms.Owners {
+			owners = append(owners, o.Addr)
+		}
+		c.state().Accounts.CreateMultisig(ms.Weights, owners, ms.Threshold, ms.Addr)
+		c.state().Accounts.SetNonce(ms.Addr, spec.Nonce) // expected nonce = Nonce+1: never this transaction
 		b.msig = ms
 		for _, o := range spec.Signers {
 			b.keys[hex.EncodeToString(o.Addr[:])] = true
@@ -425,15 +483,24 @@ func (c *c23Run) canonCheck(in []byte, ch *check.Check) (string, string) {
 var c23MustReject = map[string]bool{"high-s-twin": true, "high-s": true, "bad-v": true, "r-out-of-range": true, "s-out-of-range": true}
 
 // msigAccepted models the executor's multisig admission on the recovered signers.
-func c23MsigAccepted(ms *MultisigAcc, signers []string) bool {
-	if signers == nil || len(signers) > 32 || len(signers) > len(ms.Weights) {
-		return false
+func c23MsigAccepted(ms *MultisigAcc, signers []string) bool { return c23MsigReject(ms, signers) == "" }
+
+// c23MsigReject returns why the documented admission rule refuses the recovered signer list ("" = admitted).
+func c23MsigReject(ms *MultisigAcc, signers []string) string {
+	if signers == nil {
+		return "undecodable"
+	}
+	if len(signers) > 32 || len(signers) > len(ms.Weights) {
+		return "too-many-signatures"
 	}
 	seen := map[string]bool{}
 	var w uint32
 	for _, s := range signers {
-		if s == "!" || seen[s] {
-			return false
+		if s == "!" {
+			return "unrecoverable-signature"
+		}
+		if seen[s] {
+			return "duplicate-signer"
 		}
 		seen[s] = true
 		for i, o := range ms.Owners {
@@ -442,7 +509,62 @@ func c23MsigAccepted(ms *MultisigAcc, signers []string) bool {
 			}
 		}
 	}
-	return w >= ms.Threshold
+	if w < ms.Threshold {
+		return "under-weight"
+	}
+	return ""
+}
+
+// c23BadSigValues reports (by the harness's own parse of the signature values) why a [V,R,S] triple is invalid.
+func c23BadSigValues(tr []*rl) string {
+	if len(tr) != 3 || tr[0].list || tr[1].list || tr[2].list {
+		return ""
+	}
+	V, R, S := new(big.Int).SetBytes(tr[0].b), new(big.Int).SetBytes(tr[1].b), new(big.Int).SetBytes(tr[2].b)
+	switch {
+	case V.Cmp(big.NewInt(27)) != 0 && V.Cmp(big.NewInt(28)) != 0:
+		return "bad-v"
+	case R.Sign() == 0 || R.Cmp(c23N) >= 0:
+		return "r-out-of-range"
+	case S.Sign() == 0 || S.Cmp(c23N) >= 0:
+		return "s-out-of-range"
+	case S.Cmp(c23HalfN) > 0:
+		return "high-s"
+	}
+	return ""
+}
+
+// invalidSigAccepted looks at the signature values of an accepted input with the harness's own parser: a triple
+// with V not in {27,28}, R/S outside [1,N-1] or S > N/2 must not have recovered an address.
+func c23InvalidSigAccepted(kind string, in []byte, v C23Verdict) string {
+	t, err := rlParseAll(in)
+	if err != nil || !t.list || len(t.kids) != 10 {
+		return ""
+	}
+	if kind == "check" {
+		if why := c23BadSigValues(t.kids[7:10]); why != "" && v.SndOK {
+			return why
+		}
+		return ""
+	}
+	sd, err := rlParseAll(t.kids[9].b)
+	if err != nil || !sd.list {
+		return ""
+	}
+	if len(t.kids[8].b) == 1 && t.kids[8].b[0] == 1 {
+		if why := c23BadSigValues(sd.kids); why != "" && v.SndOK {
+			return why
+		}
+		return ""
+	}
+	if len(sd.kids) == 2 && sd.kids[1].list && len(sd.kids[1].kids) == len(v.Signers) {
+		for i, k := range sd.kids[1].kids {
+			if why := c23BadSigValues(k.kids); why != "" && v.Signers[i] != "!" {
+				return why
+			}
+		}
+	}
+	return ""
 }
 
 // judge evaluates one input derived from base (base may be nil for random inputs; isCheck picks the decoder).
@@ -498,11 +620,32 @@ func (c *c23Run) judge(in []byte, base *c23Base, class string, isCheck bool) str
 		return "rejected-sender"
 	}
 	// signer binding
+	if why := c23InvalidSigAccepted(kind, in, v); why != "" {
+		c.viol("invalid-signature-accepted", base.kind+"/"+why, fmt.Sprintf("mutator %s input %x: signature values are invalid (%s) but recover %s %v", class, in, why, v.Sender, v.Signers), base, class, in, v)
+		return "violation"
+	}
 	accepted := v.SndOK
 	signers := []string{v.Sender}
 	if base.kind == "tx-multi" && v.Signers != nil {
 		signers = v.Signers
-		accepted = v.SndOK && c23MsigAccepted(base.msig, v.Signers)
+		accepted = false
+		if v.SndOK && v.Hash == base.verdict.Hash && v.Sender == base.verdict.Sender {
+			// the real executor decides admission (signature phase) on the account the harness created
+			real, rc, pv := c.admit(in)
+			c.ctx.Res.Count(fmt.Sprintf("executor_code/%d", rc), 1)
+			if pv != "" {
+				c.viol("panic", "tx-multi/RunTx", pv, base, class, in, v)
+				return "panic"
+			}
+			accepted = real
+			if why := c23MsigReject(base.msig, v.Signers); real && why != "" {
+				c.viol("multisig-admission", why, fmt.Sprintf("mutator %s input %x: executor admits (code %d) signer list %v of multisig owners %d threshold %d", class, in, rc, v.Signers, len(base.msig.Owners), base.msig.Threshold), base, class, in, v)
+				return "violation"
+			} else if !real && why == "" && bytes.Equal(in, base.raw) {
+				c.viol("binding", "tx-multi/valid-rejected", fmt.Sprintf("executor refuses the harness-signed multisig transaction %x with code %d", in, rc), base, class, in, v)
+				return "violation"
+			}
+		}
 	}
 	if c23MustReject[class] {
 		bad := v.SndOK && base.kind != "tx-multi"
@@ -545,7 +688,11 @@ func (c *c23Run) judge(in []byte, base *c23Base, class string, isCheck bool) str
 	if same {
 		return "identity"
 	}
-	c.viol("malleable", base.kind+"/"+class, fmt.Sprintf("same hash %s and same sender %s under different bytes: base %x mutant %x", v.Hash, v.Sender, base.raw, in), base, class, in, v)
+	msite := base.kind + "/" + class
+	if base.kind == "tx-multi" {
+		msite = "tx-multi/signature-set" // which signatures accompany a multisig transaction is not fixed by anything signed
+	}
+	c.viol("malleable", msite, fmt.Sprintf("mutator "+class+": same hash %s and same sender %s under different bytes: base %x mutant %x", v.Hash, v.Sender, base.raw, in), base, class, in, v)
 	return "violation"
 }
 
